@@ -21,7 +21,7 @@ RULE = ('case = (key material, creation time, TZ) or (key, form) or (emitted fie
         'non-trivial = creation time at a 32-bit/sign boundary or with TZ != UTC, or an integer with leading zero bits, or a non-primary component, '
         'or a protected/unlocked/copied/re-imported form; distinct = distinct case descriptors')
 ASSUMPTIONS = ['hashlib SHA-1', 'vf.ref.keys public-key body encoder (validated: it reproduces the fingerprints that make every fixture self-signature verify)']
-MIN_COUNTERS = {'fpr_compared': 400, 'forms_compared': 60, 'emitted_fields': 30, 'generated_keys': 6, 'leading_zero_keys': 20}
+MIN_COUNTERS = {'fpr_compared': 400, 'forms_compared': 60, 'emitted_fields': 30, 'generated_keys': 6, 'leading_zero_keys': 20, 'zero_leading_identifiers': 20}
 BUDGET = {'quick': (600, 1500), 'thorough': (1200, 3600)}
 
 TIMES = [0, 1, 2**31 - 1, 2**31, 2**31 + 1, 2**32 - 1, 1109484000, 1130648400, 1667714400, 946684799, 86399, 86400]
@@ -37,6 +37,9 @@ def cases(tier, seed):
     for k in ALLKEYS[:-1] + ['ecdh_p256_0+kdf10.9', 'ecdh_p384_0+kdf8.7', 'cv25519_0+kdf10.9', 'ecdh_k256_0+kdf9.8', 'ecdh_p521_0+kdf8.8']:
         cs.append({'t': 'forms', 'key': k})
     cs.append({'t': 'leading_zero', 'seed': seed, 'n': 40 if tier == 'quick' else 1000})
+    for k in ('ed25519_0', 'rsa1024_0', 'ecdsa_p256_0'):
+        for wh in ('keyid', 'fpr', 'shortid'):
+            cs.append({'t': 'zero_ids', 'key': k, 'where': wh})
     for alg in ('ed', 'cv', 'p256', 'k256', 'p384', 'p521', 'rsa1024', 'dsa1024'):
         cs.append({'t': 'generated', 'alg': alg})
     for k in ('ed25519_0', 'rsa1024_0', 'ecdsa_p256_0', 'dsa1024_0'):
@@ -208,6 +211,59 @@ def _generated(ctx, d, pgpy):
             got = int.from_bytes(wire.split(bytes(k))[0].body[1:5], 'big')
             if got != t:
                 ctx.fail('generated-key-creation-time', {'alg': d['alg'], 'asked': t, 'written': got})
+    ctx.nontrivial(d)
+
+
+def _zero_ids(ctx, d, pgpy):
+    """identifiers that begin with a zero octet: attributes, emitted issuer / recipient fields and what is read back after transport"""
+    from pgpy.constants import KeyFlags, CompressionAlgorithm
+    wh = d['where']
+    tp, tsig, tenc = pool.created_with_zero(d['key'], wh), pool.created_with_zero('ed25519_1', wh), pool.created_with_zero('cv25519_0', wh)
+    exp = {'primary': RK.fpr_of(pool.mat(d['key'], tp)), 'sign': RK.fpr_of(pool.mat('ed25519_1', tsig)), 'enc': RK.fpr_of(pool.mat('cv25519_0', tenc))}
+    k = pool.pgpy_bare(d['key'], created=tp)
+    k.add_uid(pgpy.PGPUID.new('zero ids'), usage={KeyFlags.Certify, KeyFlags.Sign})
+    k.add_subkey(pool.pgpy_bare('ed25519_1', created=tsig), usage={KeyFlags.Sign})
+    k.add_subkey(pool.pgpy_bare('cv25519_0', created=tenc), usage={KeyFlags.EncryptCommunications, KeyFlags.EncryptStorage})
+    ctx.count('zero_leading_identifiers', 3)
+    for form in ('object', 'reloaded', 'public', 'public-reloaded'):
+        kk = {'object': k, 'reloaded': pgpy.PGPKey.from_blob(bytes(k))[0], 'public': k.pubkey, 'public-reloaded': pgpy.PGPKey.from_blob(str(k.pubkey))[0]}[form]
+        check_fpr(ctx, kk, exp['primary'].hex().upper(), {'zero_in': wh, 'form': form, 'component': 'primary'})
+        subs = {str(s_.fingerprint): (kid, s_) for kid, s_ in kk.subkeys.items()}
+        for comp in ('sign', 'enc'):
+            e = exp[comp].hex().upper()
+            if e not in subs:
+                ctx.fail('fingerprint-differs-from-reference', {'where': {'zero_in': wh, 'form': form, 'component': comp}, 'got': sorted(subs), 'expected': e})
+                continue
+            kid, sk = subs[e]
+            check_fpr(ctx, sk, e, {'zero_in': wh, 'form': form, 'component': comp})
+            if kid != e[-16:]:
+                ctx.fail('subkey-index-key-differs-from-key-id', {'zero_in': wh, 'form': form, 'component': comp, 'index': kid, 'expected': e[-16:]})
+        if kk.is_public:
+            msg = pgpy.PGPMessage.new('to a zero id', compression=CompressionAlgorithm.Uncompressed)
+            enc = pgpy.PGPMessage.from_blob(bytes(kk.encrypt(msg)))
+            ctx.count('emitted_fields')
+            ctx.count('evaluations')
+            pks = [p_ for p_ in wire.split(bytes(enc)) if p_.tag == 1]
+            if len(pks) != 1 or RPK.pkesk_fields(pks[0].body)['keyid'] != exp['enc'][-8:] or enc.encrypters != {exp['enc'].hex().upper()[-16:]}:
+                ctx.fail('emitted-recipient-differs', {'zero_in': wh, 'form': form, 'encrypters': sorted(enc.encrypters), 'expected': hx(exp['enc'][-8:])})
+            try:
+                if k.decrypt(enc).message != 'to a zero id':
+                    raise ValueError('different plaintext')
+            except Exception as e_:
+                ctx.fail('message-to-zero-leading-key-id-not-decryptable', {'zero_in': wh, 'form': form, 'err': repr(e_)[:160]})
+            continue
+        for comp, obj in (('primary', kk), ('sign', subs[exp['sign'].hex().upper()][1])):
+            s_ = pgpy.PGPSignature.from_blob(bytes(obj.sign('zero id doc')))
+            ps = RS.parse_sig(wire.split(bytes(s_))[0].body)
+            ctx.count('emitted_fields')
+            ctx.count('evaluations')
+            e = exp[comp]
+            if RS.issuer(ps) != e[-8:] or RS.issuer_fpr(ps) != e:
+                ctx.fail('emitted-issuer-differs', {'who': comp, 'zero_in': wh, 'issuer': hx(RS.issuer(ps) or b''), 'issuer_fpr': hx(RS.issuer_fpr(ps) or b''), 'expected': hx(e)})
+            if s_.signer != e.hex().upper()[-16:] or s_.signer_fingerprint != e.hex().upper():
+                ctx.fail('signature-signer-attribute', {'who': comp, 'zero_in': wh, 'signer': s_.signer, 'signer_fingerprint': str(s_.signer_fingerprint), 'after': 'transport'})
+            if not k.pubkey.verify('zero id doc', s_):
+                ctx.fail('signature-by-zero-leading-key-id-not-verifiable', {'who': comp, 'zero_in': wh, 'form': form})
     ctx.nontrivial(d)
 
 
